@@ -14,7 +14,7 @@
 (***************************************************************************)
 EXTENDS CssGen
 
-CONSTANTS NParts, Family, Export, NestDepth, Small, ValStride
+CONSTANTS NParts, Family, Export, NestDepth, Small, ValStride, CascStride, NestStride
 
 PSel(s) == [t |-> "sel", s |-> s, c |-> NoCond, n |-> <<>>]
 PCond(t, c) == [t |-> t, s |-> "", c |-> c, n |-> <<>>]
@@ -47,6 +47,11 @@ NestChoices == {<<"nest", a, b, 0>> : a \in 1..Len(TopKeys), b \in 1..Len(NestKe
 NestLists(c) == IF c[4] = 0 THEN <<TopSels[TopKeys[c[2]]], NestSels[NestKeys[c[3]]]>>
                 ELSE <<TopSels[TopKeys[c[2]]], NestSels[NestKeys[c[3]]], NestSels[NestKeys[c[4]]]>>
 
+\* a chain as a sheet: the nested rule and two later competitors of other specificity
+NestSheet(c) ==
+  << RuleItem(<<PSel(TopKeys[c[2]]), PSel(NestKeys[c[3]])>> \o (IF c[4] = 0 THEN <<>> ELSE <<PSel(NestKeys[c[4]])>>), <<D1("color", "red", 1, FALSE)>>),
+     RuleItem(<<PSel("#s")>>, <<D1("color", "blue", 1, FALSE)>>),
+     RuleItem(<<PSel(".a.b")>>, <<D1("color", "tan", 1, FALSE)>>) >>
 LenVals == <<"l0", "l1", "pct", "auto">>
 ShortChoices == {<<"short", p, n, a, b, c, d>> : p \in 1..3, n \in 1..4, a \in 1..4, b \in 1..4, c \in 1..4, d \in 1..4}
 ShortDecl(c) == [p |-> <<"margin", "padding", "inset">>[c[2]], v |-> SubSeq(<<LenVals[c[4]], LenVals[c[5]], LenVals[c[6]], LenVals[c[7]]>>, 1, c[3]),
@@ -98,7 +103,9 @@ MCNext == /\ ch = <<>>
           /\ ch' \in {c \in FamChoices(0) : PartOf(c) = part}
           /\ ok' = FamCheck(ch')
           /\ part' = part /\ UNCHANGED <<gen_i, gen_out>>
-          /\ (Export /\ ch'[1] = "casc") => PrintT(<<"CASE", ToJson(Bind(CascSheet(ch'), LAMBDA sh : CaseOf(ch', sh) @@ [items |-> sh]))>>)
+          /\ (Export /\ ch'[1] = "casc" /\ SumFrom(ch', 2) % CascStride = 0) => PrintT(<<"CASE", ToJson(Bind(CascSheet(ch'), LAMBDA sh : CaseOf(ch', sh) @@ [items |-> sh]))>>)
+          /\ (Export /\ ch'[1] = "nest" /\ SumFrom(ch', 2) % NestStride = 0) =>
+                PrintT(<<"CASE", ToJson(Bind(NestSheet(ch'), LAMBDA sh : CaseOf(ch', sh) @@ [items |-> sh]))>>)
           /\ (Export /\ ch'[1] = "vals") => PrintT(<<"CASE", ToJson(Bind(ValsSheet(ch'), LAMBDA sh : CaseOf(ch', sh) @@ [items |-> sh]))>>)
 MCSpec == MCInit /\ [][MCNext]_vars
 \* WinnerUnique + LayerOrderTotal (casc), NestEquiv (nest), ShorthandLaw (short) hold for every enumerated member
